@@ -62,15 +62,16 @@ func decode(b []byte) Record {
 
 // Config of a simulated job.
 type Config struct {
-	Workers    int
-	KeyGroups  int
-	Splits     map[string][]Record
-	SplitOrder []string
-	ReadSize   int
-	Batching   batching.EventBatcherParams
-	TickAfter  []int // the checkpoint tick happens when this many event batches have been delivered to operators
-	MaxEvents  int   // horizon in network/environment events
-	SavepointAfter int // request a savepoint after this many delivered event batches (0 = never)
+	Workers              int
+	KeyGroups            int
+	Splits               map[string][]Record
+	SplitOrder           []string
+	ReadSize             int
+	Batching             batching.EventBatcherParams
+	TickAfter            []int // the checkpoint tick happens when this many event batches have been delivered to operators
+	MaxEvents            int   // horizon in network/environment events
+	SavepointAfter       int   // request a savepoint after this many delivered event batches (0 = never)
+	QueuedSnapshotWrites bool  // the job's snapshot file writes are queued events like remote calls: the driver decides when each completes
 }
 
 // rpcCall is a queued remote call awaiting delivery.
@@ -130,6 +131,13 @@ func New(c *mc.Ctx, cfg *Config) *Cluster {
 	seq++
 	cl := &Cluster{C: c, Cfg: cfg, Base: fmt.Sprintf("/x%d", seq), Root: dkvh.NewFS(), Loc: jobh.NewMemLoc(), Clock: jobh.NewClock(), Delivered: map[string]int{}, Applied: map[string]int{}}
 	cl.src = &vsrc{cl: cl}
+	if cfg.QueuedSnapshotWrites {
+		cl.Loc.BeforeWrite = func(path string) {
+			if strings.HasSuffix(path, ".snapshot") {
+				cl.call("job", "job", "StorageWrite("+path+")")
+			}
+		}
+	}
 	storage.VerifRegisterFS("memory://"+cl.Base, func(loc string) storage.FileSystem {
 		return cl.Root.WithWorkingDir(strings.TrimPrefix(loc, "memory://"))
 	})
@@ -350,9 +358,9 @@ type splitter struct {
 	hooks connectors.SourceSplitterHooks
 }
 
-func (s *splitter) IsSourceSplitter()                       {}
-func (s *splitter) Close() error                            { return nil }
-func (s *splitter) Checkpoint() []byte                      { return []byte("vsrc") }
+func (s *splitter) IsSourceSplitter()                     {}
+func (s *splitter) Close() error                          { return nil }
+func (s *splitter) Checkpoint() []byte                    { return []byte("vsrc") }
 func (s *splitter) NotifySplitsFinished(string, []string) {}
 func (s *splitter) Start(ckpt *snapshotpb.SourceCheckpoint) error {
 	cursors := map[string]string{}
@@ -528,9 +536,11 @@ func (cl *Cluster) opIndex(opID string) int {
 func (cl *Cluster) StartJob(savepointURI string) {
 	cl.jobGen++
 	job, err := jobs.New(&jobs.NewParams{
-		JobConfig: &config.Config{WorkerCount: cl.Cfg.Workers, KeyGroupCount: cl.Cfg.KeyGroups, WorkingStorageLocation: "memory://" + cl.Base + "/dkv", Sources: []connectors.SourceConfig{cl.src}},
+		JobConfig:    &config.Config{WorkerCount: cl.Cfg.Workers, KeyGroupCount: cl.Cfg.KeyGroups, WorkingStorageLocation: "memory://" + cl.Base + "/dkv", Sources: []connectors.SourceConfig{cl.src}},
 		SavepointURI: savepointURI, Clock: cl.Clock, HeartbeatDeadline: 5 * time.Second, Store: &UnifiedLoc{MemLoc: cl.Loc, DKV: cl.Root}, ErrChan: make(chan error, 16),
-		OperatorFactory:     func(senderID string, node *jobpb.NodeIdentity) proto.Operator { return &opProxy{cl: cl, from: "job", target: node.Id} },
+		OperatorFactory: func(senderID string, node *jobpb.NodeIdentity) proto.Operator {
+			return &opProxy{cl: cl, from: "job", target: node.Id}
+		},
 		SourceRunnerFactory: func(node *jobpb.NodeIdentity) proto.SourceRunner { return &srProxy{cl: cl, target: node.Id} },
 	})
 	if err != nil {
@@ -550,10 +560,16 @@ func (cl *Cluster) AddWorker() {
 	ctx, cancel := context.WithCancel(context.Background())
 	w.cancel = cancel
 	w.op = operator.NewOperator(operator.NewOperatorParams{ID: w.opID, Host: "h", UserHandler: w.h, Job: &jobProxy{cl: cl, from: w.opID}, Clock: w.clock[0], EventBatching: cl.Cfg.Batching,
-		NeighborOperatorFactory: func(senderID string, node *jobpb.NodeIdentity) proto.Operator { return &opProxy{cl: cl, from: senderID, target: node.Id} }})
+		NeighborOperatorFactory: func(senderID string, node *jobpb.NodeIdentity) proto.Operator {
+			return &opProxy{cl: cl, from: senderID, target: node.Id}
+		}})
 	w.sr = sourcerunner.New(sourcerunner.NewParams{Host: "h", UserHandler: w.h, Job: &jobProxy{cl: cl, from: w.srID}, Clock: w.clock[1], EventBatching: cl.Cfg.Batching,
-		SourceReaderFactory: func(*jobconfigpb.Source) connectors.SourceReader { return cl.src.NewSourceReader(connectors.SourceReaderHooks{}) },
-		OperatorFactory: func(senderID string, node *jobpb.NodeIdentity) proto.Operator { return &opProxy{cl: cl, from: senderID, target: node.Id} }})
+		SourceReaderFactory: func(*jobconfigpb.Source) connectors.SourceReader {
+			return cl.src.NewSourceReader(connectors.SourceReaderHooks{})
+		},
+		OperatorFactory: func(senderID string, node *jobpb.NodeIdentity) proto.Operator {
+			return &opProxy{cl: cl, from: senderID, target: node.Id}
+		}})
 	w.sr.ID = w.srID
 	cl.workers = append(cl.workers, w)
 	shim.Go(func() { w.op.Start(ctx) })
